@@ -22,7 +22,9 @@ EXTENDS Naturals, FiniteSets, Sequences
 CONSTANTS Runner,     \* "ptrace" | "unshare" | "container"
           N           \* max nodes
 Nodes == 1..N
-Escapes == IF Runner = "ptrace" THEN {"none"} ELSE {"none", "setsid", "setpgid", "daemon"}
+\* "untraced" (ptrace runner): the child is created with CLONE_UNTRACED, so the tracer never sees it; it is
+\* still a member of the program's process group
+Escapes == IF Runner = "ptrace" THEN {"none", "untraced"} ELSE {"none", "setsid", "setpgid", "daemon"}
 
 VARIABLES par,       \* [Nodes -> 0..N] parent (0 = none / not created); par[1] = 0
           esc,       \* [Nodes -> Escapes]
@@ -41,7 +43,7 @@ Init ==
   /\ pc = "running"
   /\ reaper = [n \in Nodes |-> "runner"]
 
-InGroup(n) == esc[n] = "none"                 \* still in the program's process group
+InGroup(n) == esc[n] \in {"none", "untraced"}                 \* still in the program's process group
 
 \* the program itself may end first (its children live on)
 RootExits == pc = "running" /\ st[1] = "run" /\ st' = [st EXCEPT ![1] = "zombie"] /\ UNCHANGED <<par, esc, pc, reaper>>
